@@ -407,6 +407,34 @@ func (c *Ctx) ruleStrUTF8() {
 			}
 		}
 	}
+	// what is traversed is the argument itself, or the argument with blanks and tabs - nothing
+	// else - cut from its ends: a trim by Unicode class (strings.TrimSpace) removes NBSP, U+3000,
+	// line ends ... of the first/last leaf, which must be reproduced verbatim
+	if rng != nil {
+		v := rng.X
+		for depth := 0; depth < 4; depth++ {
+			if _, isParam := v.(*ssa.Parameter); isParam {
+				break
+			}
+			call, isCall := v.(*ssa.Call)
+			if !isCall {
+				problems = append(problems, "the traversed text is not the argument (possibly with blanks/tabs cut from its ends)")
+				break
+			}
+			switch cn := c.calleeName(&call.Call); cn {
+			case "strings.Trim", "strings.TrimLeft", "strings.TrimRight":
+				cut, ok := call.Call.Args[1].(*ssa.Const)
+				if !ok || cut.Value == nil || cut.Value.Kind() != constant.String || strings.Trim(constant.StringVal(cut.Value), " \t") != "" {
+					problems = append(problems, c.p.instrPos(call)+": characters other than blank and tab are cut from the ends")
+				}
+			case "strings.TrimSpace":
+				problems = append(problems, c.p.instrPos(call)+": the ends are trimmed by Unicode class (strings.TrimSpace): a first/last leaf loses leading/trailing NBSP, U+3000, line ends and other non-blank white space")
+			default:
+				problems = append(problems, c.p.instrPos(call)+": the text is preprocessed by "+cn+" before the rune loop")
+			}
+			v = call.Call.Args[0]
+		}
+	}
 	if len(problems) == 0 {
 		rep.ok("R-STR", relName(fn), "verbatim text, blanks condensed", pos, "range over runes; every rune but blank/tab is written unchanged; a blank is written only for a blank or tab")
 	} else {
